@@ -127,7 +127,7 @@ func (c07) Generate(seed uint64, i int, tier string) *Scenario {
 		for j := 0; j < n; j++ {
 			switch m := r.Intn(100); {
 			case m < 40:
-				sc.Ops = append(sc.Ops, Op{Op: "exec", A: int64(r.Intn(3))})
+				sc.Ops = append(sc.Ops, Op{Op: "exec", A: int64(r.Pick3(r.Intn(3), r.Intn(3), r.Intn(5)))})
 			case m < 55:
 				sc.Ops = append(sc.Ops, Op{Op: "cancel", S: fmt.Sprintf("why-%d", j)})
 			case m < 70:
@@ -639,7 +639,7 @@ func (p c07) runHist(sc *Scenario, prog *starlark.Program, ref c07run, S uint64,
 	c := w.NewCtx("main")
 	pre := w.Predeclared()
 	// Small auxiliary programs with known cost.
-	aux := []string{"x = 1\n", "pass\n", "def k0():\n    return \"ok\"\nk1 = lambda: 0\n", "def f(n):\n    t = 0\n    for i in range(n):\n        t += i\n    return t\ny = f(20)\nprobe(y)\n", "z = [i * i for i in range(15)]\nprobe(len(z))\n"}
+	aux := []string{"x = 1\n", "def f(n):\n    t = 0\n    for i in range(n):\n        t += i\n    return t\ny = f(20)\nprobe(y)\n", "z = [i * i for i in range(15)]\nprobe(len(z))\n", "pass\n", "def k0():\n    return \"ok\"\nk1 = lambda: 0\n"}
 	var auxProg []*starlark.Program
 	var auxS []uint64
 	for i, src := range aux {
